@@ -322,6 +322,19 @@ impl<'a> Walk<'a> {
                     origin,
                 );
             }
+            // ... and from the position the rules prescribe (the oracle's own account of rights
+            // and en-passant file): a hash that follows a wrong state is not a function of the
+            // position either
+            let want_rules = self.keys.hash(shadow);
+            if hash == want && hash != want_rules {
+                self.viol(
+                    "C04",
+                    "recompute-rules",
+                    &fen4,
+                    format!("hash {hash:016X} differs from the key-file combination {want_rules:016X} for the position reached ({})", fen::render4(shadow)),
+                    origin,
+                );
+            }
             if fen4 == "rnbqkbnr/pppppppp/8/8/8/8/PPPPPPPP/RNBQKBNR w KQkq -" {
                 self.out.add("c04_startpos_seen", 1);
                 if hash != o::zobrist::START_HASH {
@@ -837,7 +850,7 @@ pub fn worker(prop: &str, shard: usize, nshards: usize, seed: u64, tier: &str, o
                         let case = || json!({"kind":"pos","family":name,"index":i.to_string(),"load_fen":f6});
                         let origin = Origin { case: &case, route: "enum", src: ((fi as u64 + 1) << 40) | i };
                         walk.check_position(&mut g, &p, &origin);
-                        if fam == gen::Family::Intruder {
+                        if fam == gen::Family::Intruder || fam == gen::Family::DoublePush {
                             // one ply deeper: what the other side may do after every reply
                             // (castling with a rook that has just been taken, rights that a
                             // king move on the far rank must not touch)
@@ -1181,7 +1194,7 @@ fn summarize(prop: &str, chk: &mut Check, agg: &Agg) {
         .map(|(k, _)| k.trim_start_matches("family_").trim_end_matches("_exhaustive_shards").to_string())
         .collect();
     chk.put("families_enumerated_completely", json!(exhaustive));
-    chk.rule = "positions = every position of oracle-driven random games (9 move policies, up to 398 plies, from the start position and ~85 corpus positions; engine advanced by push_history, push or a mix; every few plies the position is also loaded from text in both en-passant conventions) plus members of enumerated families (K+X v K complete, castling-under-attack complete, king-among-unmoved-rooks complete and walked one ply further, en-passant discoveries and promotion targets complete in thorough / strided in quick), random positions built around a pinned piece (incl. the mirrored-diagonal geometry) and every node of depth-2/3 trees from the corpus roots. distinct = by position key (board, side, rights, ep file) merged across workers; non-trivial = the position has at least one of: check, double check, pin, en passant available, castling right for the mover, promotion available, no legal move.".into();
+    chk.rule = "positions = every position of oracle-driven random games (9 move policies, up to 398 plies, from the start position and ~85 corpus positions; engine advanced by push_history, push or a mix; every few plies the position is also loaded from text in both en-passant conventions) plus members of enumerated families (K+X v K complete, castling-under-attack complete, king-among-unmoved-rooks and double-steps-with-enemy-pawns-anywhere complete and walked one ply further, en-passant discoveries and promotion targets complete in thorough / strided in quick), random positions built around a pinned piece (incl. the mirrored-diagonal geometry) and every node of depth-2/3 trees from the corpus roots. distinct = by position key (board, side, rights, ep file) merged across workers; non-trivial = the position has at least one of: check, double check, pin, en passant available, castling right for the mover, promotion available, no legal move.".into();
     chk.assumptions = vec![
         "the oracle crate (independent rules written from the FIDE laws) is correct; it is validated in setup against published perft counts and hand-checked special cases without consulting the engine".into(),
         "positions outside the generated set are not covered".into(),
